@@ -183,6 +183,8 @@ def _steps(case):
     steps = []
     for d in dirs:
         kind, arg = d[:d.index("(")], d[d.index("(") + 1:-1]
+        if kind not in ("uniform_shape", "nway_shape"):
+            continue
         val = int(arg) if arg.isdigit() else case["sizes"][arg]
         steps.append(val if kind == "uniform_shape" else (Q - 1) // val + 1)
     return steps
